@@ -81,10 +81,11 @@ def classify(exc, ctx):
 
 
 class Ctx:
-    def __init__(self, ZConfig):
+    def __init__(self, ZConfig, root=None):
         self.ZConfig = ZConfig
         self.col = Collector()
         self.exempt = 0
+        self.root = root
 
     def run(self, ctxname, key, inp, fn, *a, **kw):
         """Call a loading entry point; record an escaping internal error."""
@@ -100,7 +101,8 @@ class Ctx:
                 raise
             err = e
             res = "escaped"
-        self.col.case(hash(key), None)
+        self.col.case(hash(key), dict(inp, result=res)
+                      if self.col.evaluations % 4001 == 7 else None)
         if err is not None:
             sig = classify(err, ctxname)
             if sig is None:
@@ -110,7 +112,8 @@ class Ctx:
                     sig, "%s escaped from %s" % (type(err).__name__,
                                                  getattr(fn, "__name__", fn)),
                     inp, "a configuration or a ZConfig.ConfigurationError",
-                    "%s: %s" % (type(err).__name__, str(err)[:200]))
+                    ("%s: %s" % (type(err).__name__, str(err)[:200]))
+                    .replace(self.root or "\0", "<root>"))
             err.__traceback__ = None
         return res
 
@@ -233,8 +236,8 @@ def work_include(item):
     part, nparts, quick = item
     sch = cs.SCHEMA_BY_NAME["flat"]
     schema = cs.load_schema(sch)
-    c = Ctx(ZConfig)
     root = tempfile.mkdtemp(prefix="c07i_", dir=cs.fast_tmp())
+    c = Ctx(ZConfig, root)
     try:
         os.makedirs(os.path.join(root, "sub"))
         with open(os.path.join(root, "frag.conf"), "w") as f:
@@ -290,8 +293,8 @@ def work_graph(item):
     part, nparts, quick = item
     sch = cs.SCHEMA_BY_NAME["sections"]
     schema = cs.load_schema(sch)
-    c = Ctx(ZConfig)
     root = tempfile.mkdtemp(prefix="c07g_", dir=cs.fast_tmp())
+    c = Ctx(ZConfig, root)
     names = ["A.conf", "B.conf", "C.conf"]
     body = {
         # (before, after): includes are placed inside <node> ... </node>
@@ -484,8 +487,9 @@ def work_validator(item):
                     col.violation(sig, "%s escaped from validator.main"
                                   % type(esc).__name__, inp,
                                   "exit status 0 or 1",
-                                  "%s: %s" % (type(esc).__name__,
-                                              str(esc)[:200]))
+                                  ("%s: %s" % (type(esc).__name__,
+                                               str(esc)[:200]))
+                                  .replace(root, "<root>"))
                 esc.__traceback__ = None
                 continue
             if internal is not None:
@@ -498,8 +502,10 @@ def work_validator(item):
             elif err.getvalue() != "".join(exp_msgs) or out.getvalue():
                 col.violation("C07:validator-messages",
                               "not exactly one message per invalid file",
-                              inp, exp_msgs,
-                              [err.getvalue(), out.getvalue()])
+                              inp, [m.replace(root, "<root>")
+                                    for m in exp_msgs],
+                              [err.getvalue().replace(root, "<root>"),
+                               out.getvalue()])
     finally:
         shutil.rmtree(root, ignore_errors=True)
     o = col.partial()
